@@ -294,9 +294,6 @@ theorem matcher_correct_envoy_filter (key : Str) (vs : List Str) (tcp : Bool) (r
 
 /-! ## 13. requestPrincipals / request.auth.principal -/
 
-theorem sl_reverse (a u : Str) : (sl a u).reverse = sl u.reverse a.reverse := by
-  simp [sl]
-
 theorem mem_reverse_iff (c : Char) (s : Str) : c ∈ s.reverse ↔ c ∈ s := List.mem_reverse
 
 /-- Equality of `a/u` and `b/w` when the parts after the (last) slash are slash-free. -/
@@ -315,11 +312,6 @@ theorem sl_suffix_sl {a b u w : Str} (hu : '/' ∉ u) (hw : '/' ∉ w) :
   constructor
   · rintro ⟨h1, h2⟩; exact ⟨List.reverse_inj.1 h1, h2⟩
   · rintro ⟨rfl, h2⟩; exact ⟨rfl, h2⟩
-
-theorem suffix_of_slashFree_sl {x a w : Str} (hx : '/' ∉ x) (h : x <:+ sl a w) : x <:+ w := by
-  rw [← List.reverse_prefix, sl_reverse] at h
-  have := prefix_of_slashFree_sl (by simpa using hx) h
-  rwa [List.reverse_prefix] at this
 
 theorem cut_none (c : Char) (s : Str) (h : cut c s = none) : c ∉ s := by
   induction s with
@@ -383,23 +375,6 @@ theorem sl_prefix_cases {I S' i s : Str} (hS : '/' ∉ S') (hs : '/' ∉ s) (h :
       simp only [List.cons_append, List.cons.injEq] at hy
       obtain ⟨rfl, hy⟩ := hy
       exact absurd (by rw [hy]; simp) hs
-
-theorem dropLast_append_singleton (a : Str) (c : Char) : (a ++ [c]).dropLast = a := by simp
-
-theorem hasPrefix_star_iff (v : Str) : hasPrefix star v = true ↔ ∃ t, v = '*' :: t := by
-  cases v with
-  | nil => simp [hasPrefix, star, List.isPrefixOf]
-  | cons c t =>
-    simp only [hasPrefix, star, List.isPrefixOf, Bool.and_eq_true, beq_iff_eq, List.cons.injEq]
-    constructor
-    · rintro ⟨h, -⟩; exact ⟨t, h.symm, rfl⟩
-    · rintro ⟨t', h, -⟩; exact ⟨h.symm, by cases t <;> trivial⟩
-
-theorem hasSuffix_star_iff (v : Str) : hasSuffix star v = true ↔ ∃ t, v = t ++ ['*'] := by
-  rw [hasSuffix, List.isSuffixOf_iff_suffix]
-  constructor
-  · rintro ⟨t, h⟩; exact ⟨t, h.symm⟩
-  · rintro ⟨t, h⟩; exact ⟨t, h.symm⟩
 
 theorem trimPrefix_star_cons (t : Str) : trimPrefix star ('*' :: t) = t := by
   simp [trimPrefix, star, List.isPrefixOf]
@@ -894,35 +869,6 @@ theorem migrateRule_equiv (b : List Str) (mr : MRule) (hb : bundleOK b = true) (
     · simp only [h2, if_false]
       exact MRule.equiv_refl mr
 
-
-theorem splitOn_parts_not_mem (c : Char) (s : Str) : ∀ p ∈ splitOn c s, c ∉ p := by
-  induction s with
-  | nil => simp [splitOn]
-  | cons x xs ih =>
-    simp only [splitOn]
-    by_cases hx : x = c
-    · simp only [hx, if_true, List.mem_cons]
-      rintro p (rfl | hp)
-      · simp
-      · exact ih p hp
-    · simp only [hx, if_false]
-      cases hs : splitOn c xs with
-      | nil => exact absurd hs (splitOn_ne_nil c xs)
-      | cons h t =>
-        rw [hs] at ih
-        simp only [List.mem_cons]
-        rintro p (rfl | hp)
-        · simp only [List.mem_cons, not_or]
-          exact ⟨fun e => hx e.symm, ih h (by simp)⟩
-        · exact ih p (by simp [hp])
-
-theorem splitOn_sl (c : Char) (a r : Str) (ha : c ∉ a) : splitOn c (a ++ c :: r) = a :: splitOn c r := by
-  induction a with
-  | nil => simp [splitOn]
-  | cons x xs ih =>
-    simp only [List.mem_cons, not_or] at ha
-    simp only [List.cons_append, splitOn]
-    rw [if_neg (fun e => ha.1 e.symm), ih ha.2]
 
 theorem join5 (t a b c d : Str) :
     join ['/'] [t, a, b, c, d] = t ++ '/' :: (a ++ '/' :: (b ++ '/' :: (c ++ '/' :: d))) := by
